@@ -159,6 +159,42 @@ def main():
                 if outs is not None and (b"".join(outs) + buf) != data:
                     em.violation("C11: data lost, duplicated or reordered around a timeout (reading on after the timeouts does not deliver the whole stream)",
                                  {"recv_events": [e.hex() if e is not None else None for e in evs], "ops": drain}, {"delivered": (b"".join(outs) + buf).hex(), "sent": data.hex()})
+        # long streams: many buffers' worth of data, reads that straddle receive boundaries for a long time without ever
+        # draining the buffer exactly (offset bookkeeping, lazy compaction, anything that depends on how much has gone by)
+        for it in range(10 if thorough else 4):
+            n = rng.choice([9000, 14800, 20011, 33000])
+            data = bytes(rng.getrandbits(8) for _ in range(n))
+            base = None
+            for seg, bs, rd in [(4096, 4096, 25), (1000, 4096, 25), (4096, 4096, 4095), (777, 512, 100), (4097, 4096, 4096), (n, 4096, 13), (1500, 1000, 1023)]:
+                segs = [data[i:i + seg] for i in range(0, n, seg)]
+                ops = [rd] * (n // rd + 2)
+                if it % 2:
+                    ops = [rng.choice([1, 1, 1, rd, 3]) for _ in range(2 * n // rd + 20)]
+                em.count("long.seg%d.bufsize%d.read%d" % (seg if seg != n else 0, bs, rd))
+                if base is None:
+                    outs, buf = add_case(em, p, False, 0, [], segs, ops, "plain socket: %d bytes in segments of %d, bufsize %d, reads of %d" % (n, seg, bs, rd), bufsize=bs)
+                else:
+                    try:
+                        with vlib.watchdog(20):
+                            outs, buf = run_ops(p, segs, ops, bufsize=bs)
+                    except BaseException as e:  # noqa
+                        em.violation("C11: socket wrapper raised or hung on a long stream: %r" % e, {"length": n, "segment": seg, "bufsize": bs, "read": rd, "data_seed": "see ops"}, {})
+                        continue
+                em.direct_evaluations += 1
+                if outs is None:
+                    continue
+                got = b"".join(outs) + buf
+                sizes_ok = all(len(o) in (0, m) for o, m in zip(outs, ops))
+                if got != data[:len(got)] or not sizes_ok or (len(got) < n and sum(ops) >= n and outs[-1] != b""):
+                    k = next((i for i in range(min(len(got), n)) if got[i] != data[i]), min(len(got), n))
+                    em.violation("C11: a long stream is not delivered in order (first difference at offset %d of %d; segments of %d, bufsize %d, reads of %d)" % (k, n, seg, bs, rd),
+                                 {"segments": [x.hex() for x in segs], "ops": ops, "bufsize": bs}, {"delivered_bytes": len(got)})
+                # every read before the first empty one is full: the sequence of outputs is therefore independent of segmentation
+                if ops == [rd] * (n // rd + 2):
+                    if base is None:
+                        base = (rd, outs)
+                    elif base[0] == rd and outs != base[1]:
+                        em.violation("C11: result depends on segmentation (long stream)", {"segments": [x.hex() for x in segs], "ops": ops, "bufsize": bs}, {})
         em.samples = [{"data_len": n, "segmentations": len(parts), "op_sets": len(ops_sets)}]
     else:  # C12
         bodies = []
